@@ -81,6 +81,7 @@ type Oracles struct {
 	FormsEqual    bool `json:"forms_equal,omitempty"`    // C03: compare batteries of different fraction forms with each other
 	NoErrors      bool `json:"no_errors,omitempty"`      // C07: any API error is a violation
 	IDsOnly       bool `json:"ids_only,omitempty"`       // copies of a document may sit in several fractions: only listing and fetch are compared
+	NoAggs        bool `json:"no_aggs,omitempty"`        // copies of a document sit in several fractions: listing, total and histogram are corrected by the merge and compared, aggregations are not
 }
 
 // Case is a complete, explicit, replayable simulation input.
